@@ -1,11 +1,11 @@
 import Gv.Model.Fmt.Stockholm
-import Gv.Proofs.BagInv
+import Gv.Proofs.FmtBagInv
 /-!
 Stockholm parser: lexer progress, fuel sufficiency (no `hang` once the markup loop stops at EOF),
 container invariant through the main loop (helper development for `Props/C03.lean`).
 -/
 namespace Gv.Proofs.StockholmOutcome
-open Gv Gv.Model Gv.Model.Fmt Gv.Model.Fmt.Stockholm Gv.Proofs.BagInv
+open Gv Gv.Model Gv.Model.Fmt Gv.Model.Fmt.Stockholm Gv.Proofs.FmtBagInv
 
 theorem length_dropWhile_le {α} (p : α → Bool) : ∀ l : List α, (l.dropWhile p).length ≤ l.length
   | [] => by simp
